@@ -47,7 +47,7 @@ def statusOf {α} : R α → Int
   | .error _ => -1
 
 /-- 1024 * 1024 * 128 -/
-def wrapperIntermediateLimit : Nat := 134217728
+def wrapperIntermediateLimit : Nat := Gen.WRAPPER_INTERMEDIATE_LIMIT
 
 /-- WrapperCompressZip: (status, valid output bytes = *result_size) -/
 def wrapCompress (z : Zstd) (o : Oracle) (crc : Bytes → Nat) (input : Bytes) (cap : Nat) : Int × Bytes :=
